@@ -1,7 +1,7 @@
 PROP = dict(
     model_args=[],
     trivial=lambda inp, out: False,
-    rule='CONCURRENT family: FormatTPS and ParseTPS from 6 goroutines at once on the run's positions of mixed sizes (~9 000 calls), each answer compared with the sequential one; F cases: positions with default piece counts - sampled positions of random playouts (all sizes, wall/capstone- and stack-heavy '
+    rule='CONCURRENT family: FormatTPS and ParseTPS from 6 goroutines at once on the positions of the run (mixed sizes) (~9 000 calls), each answer compared with the sequential one; F cases: positions with default piece counts - sampled positions of random playouts (all sizes, wall/capstone- and stack-heavy '
          'policies) and constructed boards that fit the default reserves (stacks up to 12 high, walls and capstones on stacks, both capstones '
          'of a colour on 7x7/8x8, empty runs of every length): FormatTPS, parse back, Equal both ways, Hash, four reserves, ply and side. '
          'S cases: canonical strings (FormatTPS output re-parsed and re-formatted) and a malformed stream (structure-aware mutations, '
